@@ -444,7 +444,13 @@ impl<'a, 'src: 'a> Compiler<'a, 'src> {
   /// Emit byte code for a return
   fn emit_return(&mut self, line: u32) {
     match self.fun_kind {
-      FunKind::Initializer => self.emit_byte(SymbolicByteCode::GetLocal(0), line),
+      // self is boxed in place when a closure inside the initializer captures it
+      FunKind::Initializer => match self.resolve_local(SELF) {
+        Some((slot, SymbolState::LocalCaptured)) => {
+          self.emit_byte(SymbolicByteCode::GetBox(slot), line)
+        },
+        _ => self.emit_byte(SymbolicByteCode::GetLocal(0), line),
+      },
       _ => self.emit_byte(SymbolicByteCode::Nil, line),
     }
 
